@@ -296,8 +296,8 @@ type okPath struct {
 	recvStores []string // stores through the receiver (must be empty)
 	checkedOn  string   // receiver of the IsChecked whose false edge the path took
 	checkedCol string
-	checkedAt  int // index in effects of that query
-	lastMutAt  int // index of last mutation (xor) in effects
+	checkedAt  int      // index in effects of that query
+	lastMutAt  int      // index of last mutation (xor) in effects
 	attacked   []string // "recv|colour|square" of IsAttacked queries answered false on this path
 	facts      string
 	nToggles   int
